@@ -173,6 +173,16 @@ def new_proj_drawing(chart, tf, hist=None):
     return make(lib_transform("projective", tf))
 
 
+def hist_tag(case, lab, v):
+    """Findings of a case with a transform history: key and message say so."""
+    if case.get("hist") is not None:
+        for x in v:
+            if not x["key"].startswith("history/"):
+                x["key"] = "history/" + x["key"]
+            x["msg"] = "transform history %s: %s" % (lab, x["msg"])
+    return v
+
+
 def drawing_of(space, where, case):
     """(drawing, tf, label, violations): tf is what `transformed` / `ptransformed` take - the name of the case's
     constructor transform or, for a case with a transform history, the oracle matrix of the history."""
@@ -291,7 +301,21 @@ def polyline_check(Vs, verts, codes, site, tol):
     return out
 
 
-def edge_table(model, Kt, thr):
+def short_edge_allowance(model, a, b, c, r):
+    """Euclidean allowance for positions on the drawn circle of the edge between the Klein points a, b at distance d:
+    the library reaches the circle through the edge's ideal end points, whose Klein norm is 1 only up to ~eps/d^2.
+    Poincare disc: 1e-8/d.  Half-plane: the chart turns that defect into a height sqrt(2 eps)/d * (1 + X^2)/2 of the
+    'ideal' point at abscissa X, which moves the circle by as much: 4e-8/d * (1 + X^2), X = |centre| + r the larger
+    ideal abscissa (measured on the thin-polygon alphabet: at most 0.83e-8/d * (1 + X^2), proportional to it)."""
+    d = float(np.linalg.norm(np.asarray(b, dtype=float) - np.asarray(a, dtype=float)))
+    if model == "halfspace":
+        X = abs(float(c[0])) + r
+        return 4e-8 / d * (1.0 + X * X)
+    return 1e-8 / d
+
+
+def edge_table(model, Kt, thr, thin=False):
+    """thin: add short_edge_allowance to the position tolerance of every edge drawn as an arc (thin polygons)."""
     k = len(Kt)
     Vs = dg.model_coords(model, Kt)
     edges = []
@@ -312,7 +336,7 @@ def edge_table(model, Kt, thr):
             tv = tol_pt(np.concatenate([A, B]))
             allow = chord_allow
         else:
-            tv = tol_arc(r)
+            tv = tol_arc(r) + (short_edge_allowance(model, a, b, c, r) if thin else 0.0)
             allow = tv
             chord_allow = chord_allow + tv
         edges.append({"A": A, "B": B, "c": c, "r": r, "cls": cls, "tv": tv, "allow": allow, "chord_allow": chord_allow})
@@ -331,11 +355,11 @@ def bezier_allowance(p, ed):
     return BEZ * ed["r"] * min((theta / (0.25 * math.pi)) ** 6, 64.0)
 
 
-def arc_path_check(model, Kt, verts, codes, thr, site):
+def arc_path_check(model, Kt, verts, codes, thr, site, thin=False):
     """Poincare / half-plane polygon path against the oracle edges.  Returns (violations, summary)."""
     out = []
     k = len(Kt)
-    Vs, edges = edge_table(model, Kt, thr)
+    Vs, edges = edge_table(model, Kt, thr, thin)
     summ = "".join(ed["cls"] for ed in edges)
     try:
         pcs = svgpath.pieces(verts, codes)
@@ -418,6 +442,95 @@ def arc_path_check(model, Kt, verts, codes, thr, site):
     return out, summ + ":" + "".join(kd[0] for kd in kinds)
 
 
+# ------------------------------------------------------------------------------------------
+# thin polygons: one or two edges far shorter than MIN_SEP
+# ------------------------------------------------------------------------------------------
+THIN_MARGIN = 4.0       # every position tolerance of the polygon is at most 1/4 of its shortest model edge
+
+
+def distance_threshold():
+    from geometry_tools import drawtools
+    return float(drawtools.DISTANCE_THRESHOLD)
+
+
+def thin_domain(model, Kt, thr, dthr):
+    """Is the (transformed) polygon in the domain of the thin-polygon clauses?  Decided from the oracle alone:
+    None, or the reason why it is not."""
+    Kt = np.asarray(Kt, dtype=float)
+    if float(np.max(np.linalg.norm(Kt, axis=1))) > 0.97:
+        return "radius"
+    if not in_view(model, Kt):
+        return "out-of-view"
+    Vs, edges = edge_table(model, Kt, thr, True)
+    mL = min(float(np.linalg.norm(ed["B"] - ed["A"])) for ed in edges)
+    if mL < 1.5 * dthr:
+        return "below-distance-threshold"
+    if THIN_MARGIN * max(ed["tv"] for ed in edges) > mL:
+        return "ill-conditioned"
+    return None
+
+
+def visit_order_violations(model, Kt, verts, codes, thr, site):
+    """The nodes of the path (end points of its pieces), each matched with the vertex it coincides with (within the
+    position tolerance of the two edges at that vertex; under thin_domain at most one vertex qualifies), visit
+    the vertices in the cyclic order v0, v1, ..., v(k-1), v0: consecutive repetitions count once, nodes that are at
+    no vertex (joints between the pieces of one arc, the corner of a half-plane vertical substitute) are in transit."""
+    try:
+        pcs = svgpath.pieces(verts, codes)
+    except svgpath.PathError as e:
+        return [V("%s/path-malformed" % site, str(e))]
+    Vs, edges = edge_table(model, Kt, thr, True)
+    k = len(Vs)
+    tvv = [max(edges[j - 1]["tv"], edges[j]["tv"]) for j in range(k)]
+    seq = []
+    for p in pcs:
+        hits = [j for j in range(k) if np.linalg.norm(p.end - Vs[j]) <= tvv[j]]
+        if len(hits) > 1:
+            return []          # excluded by thin_domain; nothing demanded
+        if hits and (not seq or seq[-1] != hits[0]):
+            seq.append(hits[0])
+    if seq != list(range(k)) + [0]:
+        return [V("%s/vertex-order/%s" % (site, model),
+                  "the path passes the vertices in the order %s, expected %s (vertices in model coordinates %s; codes %s)" % (
+                      seq, list(range(k)) + [0], fmt(Vs), svgpath.code_summary(codes)))]
+    return []
+
+
+def case_thin_polygons(case):
+    """One figure; every polygon of case["polys"] (Klein vertex lists with one or two very short edges) is drawn by a
+    draw_polygon call of its own."""
+    from geometry_tools import hyperbolic
+    model, tf = case["model"], case["tf"]
+    v, summ, t = [], set(), 0
+    try:
+        d = new_drawing(model, tf)
+        thr, dthr = threshold(), distance_threshold()
+        for K in case["polys"]:
+            K = np.array(K, dtype=float)
+            Kt = transformed(tf, K)
+            why = thin_domain(model, Kt, thr, dthr)
+            if why:
+                summ.add("skipped:" + why)
+                continue
+            poly = hyperbolic.Polygon(kpoint(K))
+            before = all_artists()
+            d.draw_polygon(pre_query(poly))
+            t += 1
+            new = new_artists(before)
+            vv = located(new, d, 1, "polygon-thin/" + model)
+            if not vv:
+                vs, cs = data_path(new[0][0], new[0][1])
+                vv, s = arc_path_check(model, Kt, vs, cs, thr, "polygon-thin", True)
+                vv = vv + visit_order_violations(model, Kt, vs, cs, thr, "polygon-thin")
+                summ.add(s.split(":")[0])
+            for x in vv:
+                x["msg"] = "vertices (Klein) %s: %s" % (np.array2string(K, precision=9, separator=",").replace("\n", ""), x["msg"])
+            v += vv
+    finally:
+        close_all()
+    return {"v": v[:6], "t": t, "o": "%s/%s/%s/" % (model, tf, case.get("tag", "")) + ";".join(sorted(summ)), "nt": t > 0}
+
+
 def check_polygon_artists(model, tf, Ks, new, d, thr):
     """Ks: list of (k,2) Klein vertex arrays drawn by one call (in flatten order)."""
     site = "polygon"
@@ -482,7 +595,7 @@ def case_polygons(case):
             nt = nt or ("A" in s) or model == "klein"
     finally:
         close_all()
-    return {"v": v[:6], "t": t, "o": "%s/%s/" % (model, lab) + ";".join(sorted(summ)), "nt": nt}
+    return {"v": hist_tag(case, lab, v)[:6], "t": t, "o": "%s/%s/" % (model, lab) + ";".join(sorted(summ)), "nt": nt}
 
 
 def case_polygon_composite(case):
@@ -805,7 +918,7 @@ def case_geodesics(case):
             summ.add(s)
     finally:
         close_all()
-    return {"v": v[:6], "t": t, "o": "%s/%s/%s/" % (model, lab, kind) + "".join(sorted(summ)), "nt": bool(summ - {"skipped"})}
+    return {"v": hist_tag(case, lab, v)[:6], "t": t, "o": "%s/%s/%s/" % (model, lab, kind) + "".join(sorted(summ)), "nt": bool(summ - {"skipped"})}
 
 
 def case_geodesic_composites(case):
@@ -890,7 +1003,7 @@ def case_points(case):
             v += vv
     finally:
         close_all()
-    return {"v": v[:6], "t": t, "o": "%s/%s/%d" % (model, lab, t), "nt": True}
+    return {"v": hist_tag(case, lab, v)[:6], "t": t, "o": "%s/%s/%d" % (model, lab, t), "nt": True}
 
 
 # ------------------------------------------------------------------------------------------
@@ -1176,7 +1289,7 @@ def case_projective(case):
             v += vv
     finally:
         close_all()
-    return {"v": v[:6], "t": t, "o": "%s/%d/%s/%d" % (kind, chart, lab, t), "nt": True}
+    return {"v": hist_tag(case, lab, v)[:6], "t": t, "o": "%s/%d/%s/%d" % (kind, chart, lab, t), "nt": True}
 
 
 def const_sign(col):
@@ -1498,6 +1611,93 @@ def composite_cases(pools_of, combos, lengths, R, same, extra):
                     yield dict(extra(*key), pattern="".join(pat), composites=comps)
 
 
+THIN_LENGTHS = [3e-3, 1e-3, 3e-4]
+
+
+def convex_ccw(P, L):
+    """The points P in counter-clockwise order about their centroid when that is a strictly convex polygon whose
+    every turn has sine > 0.1 L (a thin triangle's far angle is about L); None otherwise."""
+    P = np.asarray(P, dtype=float)
+    g = P.mean(axis=0)
+    P = P[np.argsort(np.arctan2(P[:, 1] - g[1], P[:, 0] - g[0]))]
+    k = len(P)
+    for i in range(k):
+        u, w = P[(i + 1) % k] - P[i], P[(i + 2) % k] - P[(i + 1) % k]
+        if u[0] * w[1] - u[1] * w[0] <= 0.1 * L * math.hypot(*u) * math.hypot(*w):
+            return None
+    return P
+
+
+def thin_polygons(R, phi, L, psi, full):
+    """Convex polygons (Klein coordinates) with a short edge of Klein length L from the point A at radius R, angle phi,
+    in the direction psi (measured from the outward radius; the edge points inwards) and far vertices F(a) at radius
+    rho = 0.9 (R > 0.6) or 0.6, angle phi + a; a second short edge, where present, leaves a far vertex the same way.
+    Shapes: T1 triangle / Q2 quadrilateral with two short edges / P2 pentagon with two short edges [/ Q1, P1 with one].
+    Every shape in every rotation of its vertex list and both orientations: list of (tag, vertex list)."""
+    def polar(r, a):
+        return np.array([r * math.cos(a), r * math.sin(a)])
+
+    def short_from(P, a):
+        return P + L * (math.cos(psi) * polar(1.0, a) + math.sin(psi) * polar(1.0, a + 0.5 * math.pi))
+    rho = 0.9 if R > 0.6 else 0.6
+    A = polar(R, phi)
+    B = short_from(A, phi)
+
+    def F(a):
+        return polar(rho, phi + a)
+
+    def D(a):
+        return short_from(F(a), phi + a)
+    shapes_ = [("T1", [A, B, F(2.4)]), ("Q2", [A, B, F(2.6), D(2.6)]), ("P2", [A, B, F(1.7), F(-2.5), D(-2.5)])]
+    if full:
+        shapes_ += [("Q1", [A, B, F(1.9), F(-2.3)]), ("P1", [A, B, F(1.6), F(3.0), F(-2.0)])]
+    out = []
+    for tag, P in shapes_:
+        C = convex_ccw(P, L)
+        if C is None:
+            continue
+        k = len(C)
+        for o, Q in (("+", C), ("-", C[::-1])):
+            for s in range(k):
+                out.append((tag + o, [[float(x) for x in Q[(s + i) % k]] for i in range(k)]))
+    return out
+
+
+def thin_cases(seed, full):
+    """cases of the thin-polygon section: model x drawing transform x group (the polygons as designed / their preimage
+    under the drawing transform, so that the design is what is drawn) x position x short length."""
+    g = lattice.generic_dir(2, 0, seed)
+    phi0 = math.atan2(float(g[1]), float(g[0]))
+    phis = [phi0 + 2.0 * math.pi * i / 6.0 for i in range(6)] if full else [phi0, phi0 + 2.2]
+    psis = [math.pi, 1.9, 2.6, 4.2] if full else [math.pi, 1.9]
+    radii = [0.15, 0.3, 0.6, 0.9] if full else [0.3, 0.9]
+    for model in CONFORMAL:
+        for tf in TFS:
+            for grp in (("design", "preimage") if TFS[tf] is not None else ("design",)):
+                for R in radii:
+                    for L in THIN_LENGTHS:
+                        polys = []
+                        for phi in phis:
+                            for psi in psis:
+                                for tag, P in thin_polygons(R, phi, L, psi, full):
+                                    polys.append(P if grp == "design" else [preimage(tf, x) for x in P])
+                        for s in range(0, len(polys), 48):
+                            yield {"model": model, "tf": tf, "tag": "%s/R%g/L%g" % (grp, R, L), "polys": polys[s:s + 48]}
+
+
+def histories(pair, depth):
+    """All transform histories of length 0..depth: op sequences over HIST_OPS with 'ctor' (the constructor's transform=
+    argument) only in the first place; the i-th op takes pair[i % 2]; every sequence also with the pair swapped."""
+    out = [[]]
+    for n in range(1, depth + 1):
+        for ops in itertools.product(HIST_OPS, repeat=n):
+            if "ctor" in ops[1:]:
+                continue
+            for names in (list(pair), list(pair)[::-1]):
+                out.append([[op, names[i % 2]] for i, op in enumerate(ops)])
+    return out
+
+
 def chart_rep(tf, chart, P):
     """The representative of the vertex tuple P (rows) whose images under the drawing transform all have a
     positive chart coordinate: that polygon lies inside the chart."""
@@ -1616,6 +1816,23 @@ def run(ctx):
                         cases.append({"model": model, "tf": tf, "head": [P[0], P[j]], "tails": tails[s:s + 40]})
         product("polygons-6-7-8", "checks.c19:case_polygons", cases,
                     domains={"sub-lattice": big, "tuples": "all orderings, first vertex fixed, of the first 6, the first 7 and all 8 points"}, chunk=2)
+    # thin polygons: one or two edges of Klein length 3e-3 .. 3e-4
+    ctx.assume("thin polygons (section polygons-thin; convex, 3..5 vertices, one or two edges of Klein length 3e-3, 1e-3 or 3e-4, all other "
+               "edges long): demanded when, after the drawing transform, the vertices lie at Klein radius <= 0.97 and in the half-plane view, the "
+               "shortest edge is longer than 1.5 DISTANCE_THRESHOLD in model coordinates, and every edge's position tolerance - tol_arc(r) "
+               "(tol_pt for a straight substitute) + 1e-8/d, d the shortest Klein edge length: the conditioning of the ideal end points of a "
+               "short segment - is at most 1/%g of the shortest model edge; other polygons are skipped and counted "
+               "('skipped:ill-conditioned' etc.)" % THIN_MARGIN)
+    ctx.tolerances["thin polygons"] = ("all position tolerances of the polygon clauses + 1e-8/d (see assumptions); vertex-order: a path node is "
+                                       "at a vertex when within the larger position tolerance of the two edges there (<= 1/4 of the shortest edge)")
+    tc = list(thin_cases(seed, not q))
+    product("polygons-thin", "checks.c19:case_thin_polygons", tc,
+            domains={"models": CONFORMAL, "transforms": list(TFS), "groups": "the polygons as designed; their preimage under the drawing transform",
+                     "short edge": {"Klein length": THIN_LENGTHS, "from radius": [0.15, 0.3, 0.6, 0.9] if not q else [0.3, 0.9],
+                                    "positions": "6 angles" if not q else "2 angles", "directions": 4 if not q else 2},
+                     "shapes": "triangle, quadrilateral and pentagon with one or two short edges (%s), every rotation of the vertex list, both orientations"
+                               % ("T1 Q2 P2 Q1 P1" if not q else "T1 Q2 P2")}, chunk=1)
+
     # composites: two polygons in one call
     comp = []
     tri = [[pts[0], pts[1], pts[8]], [pts[3], pts[5], pts[9]], [pts[2], pts[10], pts[4]], [pts[7], pts[6], pts[1]]]
@@ -1735,6 +1952,63 @@ def run(ctx):
                          "scales": "per polygon LAMBDAS %s; per vertex uniform / |LAMBDAS| rotated / (assume_affine=True) LAMBDAS rotated" % lattice.LAMBDAS,
                          "collections": "ordered pairs of 3 triangles x LAMBDAS^2; the 3 triangles in 3 cyclic orders x signs {+,-}^3 x moduli (1, 2.5, 0.3); "
                                         "two triangles inside the chart (signs {+,-}^2) + one leaving it, listed first / in the middle / last"}, chunk=2)
+
+    # transform histories: the drawing's transform reached through constructor / set_ / add_ / precompose_transform
+    depth = 2 if q else 3
+    ctx.assume("transform histories: set_transform(g) replaces the drawing's transform, add_transform(g) appends g (a drawing with the "
+               "transform f then draws x at g(f(x))), precompose_transform(g) applies g first (x is drawn at f(g(x))).  The three methods "
+               "carry no docstring; this is the order their names state ('precompose' = composed on the right, 'add' = the other side - "
+               "otherwise the two methods would coincide) and the order of the unchanged library; drawing.transform as reported must be "
+               "the same composition (as a projective map), and points, polygons, segments and geodesics must all be drawn after it")
+    ctx.assume("transform histories draw objects at Klein radius <= 0.6 (<= 0.94 after the longest history: two loxodromics of "
+               "translation length 0.5 each)")
+    HP = [sub[i] for i in (0, 1, 3, 5, 6, 8, 12, 15)]
+    hh = histories(HIST_PAIRS["hyperbolic"], depth)
+    hpts, hpoly, hgeo = [], [], []
+    for model in MODELS:
+        for hist in hh:
+            M = hist_matrix("hyperbolic", hist).tolist()
+            base = {"model": model, "hist": hist}
+            items = [{"k": p_, "shape": []} for p_ in HP] + [{"k": HP, "shape": [len(HP)]}, {"k": HP[:6], "shape": [3, 2]}]
+            idl = [x for x in dirs if model != "halfspace" or
+                   (not dg.is_infinity(transformed(M, x)) and dg.angle_from_infinity(transformed(M, x)) >= 0.2)]
+            items += [{"k": x, "shape": [], "ideal": True} for x in idl] + [{"k": idl, "shape": [len(idl)], "ideal": True}]
+            hpts.append(dict(base, items=items))
+            for (i, j) in ((0, 1), (4, 2), (7, 5)):
+                rest = [x for x in range(len(HP)) if x not in (i, j)]
+                tails = [[HP[x]] for x in rest] + [[HP[rest[0]], HP[rest[3]]], [HP[rest[4]], HP[rest[1]]],
+                                                     [HP[rest[2]], HP[rest[5]], HP[rest[0]]]]
+                tails = [tl for tl in tails if nondegenerate([HP[i], HP[j]] + tl)]
+                hpoly.append(dict(base, head=[HP[i], HP[j]], tails=tails))
+            for a in (HP[1], HP[6]):
+                hgeo.append(dict(base, kind="segment", a=a, bs=[b for b in HP if b != a]))
+            for a in (dirs[0], dirs[3]):
+                hgeo.append(dict(base, kind="geodesic", a=a, bs=[b for b in dirs if b != a]))
+    hdom = {"models": MODELS, "ops": HIST_OPS, "transforms": HIST_PAIRS["hyperbolic"],
+            "histories": "all %d op sequences of length 0..%d ('ctor' = the constructor's transform, only first), the i-th op taking the "
+                         "rotation / the loxodromic alternately, both assignments" % (len(hh), depth), "points": HP}
+    product("history-points", "checks.c19:case_points", hpts,
+            domains=dict(hdom, objects="every point singly, composites of shape (8,) and (3,2), ideal points singly and as one composite"), chunk=4)
+    product("history-polygons", "checks.c19:case_polygons", hpoly,
+            domains=dict(hdom, objects="3 heads x (all third vertices, two quadrilaterals, one pentagon)"), chunk=2)
+    product("history-geodesics", "checks.c19:case_geodesics", hgeo,
+            domains=dict(hdom, objects="segments from 2 points to every other point; geodesics from 2 ideal directions to every other"), chunk=4)
+    ph = histories(HIST_PAIRS["projective"], depth)
+    hpr = []
+    for chart in (0, 1, 2):
+        for hist in ph:
+            M = hist_matrix("projective", hist).tolist()
+            ok = [x for x in PL if proj_ok(M, x)]
+            base = {"chart": chart, "hist": hist}
+            hpr.append(dict(base, kind="point", items=[x for x in ok] + [ok]))
+            tri = [list(c) for c in itertools.permutations(ok[:4], 3)]
+            hpr.append(dict(base, kind="polygon", items=tri + [[ok[0:3], ok[1:4]]] + ([ok[:4]] if len(ok) >= 4 else [])))
+            hpr.append(dict(base, kind="segment", items=[list(c) for c in itertools.permutations(ok[:5], 2)]))
+    product("history-projective", "checks.c19:case_projective", hpr,
+            domains={"charts": [0, 1, 2], "ops": HIST_OPS, "transforms": {k: np.asarray(PTF_ALL[k]).tolist() for k in HIST_PAIRS["projective"]},
+                     "histories": "all %d op sequences of length 0..%d, the i-th op taking the shear / the diagonal map alternately, both assignments" % (len(ph), depth),
+                     "objects": "lattice points with all coordinates away from 0 after the history's map: points singly and as one composite, "
+                                "all ordered triangles of the first 4, a composite of two triangles, a quadrilateral, all ordered segments of the first 5"}, chunk=2)
 
     # wrong dimension
     wc = []
